@@ -26,7 +26,7 @@ use rayon::prelude::*;
 use rtkit::*;
 use rules::{Program, Step};
 use warp_core::{
-    CausalTickReceiptRef, GlobalTick, Hash, HeadInbox, InboxAddress, InboxIngestResult, InboxPolicy,
+    CausalTickReceiptRef, GlobalTick, Hash, HeadInbox, InboxAddress, InboxPolicy,
     IngressCausalParent, IngressDisposition, IngressEnvelope, IngressPayload, IngressTarget,
     IntentKind, ProvenanceStore, RuntimeError, SchedulerFaultScope, SchedulerKind, WorldlineTick,
     WriterHeadKey,
@@ -923,8 +923,9 @@ fn explore(r: &Report, cx: &Ctx, xs: &[Vec<Sym>], memo: &Memo, budget_frac: f64)
         }
         let expand = depth < cfg.depth;
         let results: Vec<(Out, Vec<([u8; 32], World, Vec<String>)>, bool)> = frontier
-            .par_iter()
-            .map(|(w, path)| {
+            .into_par_iter()
+            .map(|(w, path): (World, Vec<String>)| {
+                let (w, path) = (&w, &path);
                 let mut out = Out::default();
                 if r.over_budget_frac(budget_frac) {
                     return (out, Vec::new(), false);
@@ -1240,21 +1241,22 @@ fn inbox_phase(r: &Report) {
                     let (env, kind) = &envs[*j];
                     let id = env.ingress_id();
                     let want = if !m.pol.accepts(*kind) {
-                        InboxIngestResult::Rejected
+                        "Rejected"
                     } else if m.pending.contains_key(&id) {
-                        InboxIngestResult::Duplicate
+                        "Duplicate"
                     } else {
                         m.pending.insert(id, *kind);
-                        InboxIngestResult::Accepted
+                        "Accepted"
                     };
-                    let got = ib.ingest(env.clone());
+                    // `InboxIngestResult` is not re-exported: compare by its Debug name
+                    let got = format!("{:?}", ib.ingest(env.clone()));
                     if got != want {
                         r.violation(
-                            &format!("inbox:ingest-result:model={want:?}:real={got:?}"),
+                            &format!("inbox:ingest-result:model={want}:real={got}"),
                             json!({"case": case()}),
                         );
                     }
-                    r.outcome(&format!("inbox_ingest:{got:?}"));
+                    r.outcome(&format!("inbox_ingest:{got}"));
                 }
                 IOp::Admit => {
                     let n = m.pol.budget().min(m.pending.len());
@@ -1359,7 +1361,7 @@ fn configs(r: &Report) -> Vec<Config> {
         // the focus head had already committed
         for p in POLICIES {
             let d = match p {
-                Pol::Budgeted(1) | Pol::Budgeted(2) => 3,
+                Pol::Budgeted(1) => 3,
                 _ => 2,
             };
             v.push(single_wl(1, p, Pol::AcceptAll, d));
